@@ -208,8 +208,6 @@ class mapper(object):
             res = self.__Mem.read(a, l)
         except MemoryError:  # no zone for location a;
             res = [exp(l * 8)]
-        if endian == -1:
-            res.reverse()
         P = []
         cur = 0
         for p in res:
@@ -218,12 +216,15 @@ class mapper(object):
                 p = cst(Bits(p[::endian], bitorder=1).int(), plen * 8)
             elif isinstance(p, exp):
                 if p._is_def == 0:
-                    # p is "bottom":
-                    p = mem(a, p.size, disp=cur)
+                    # p is "bottom": the input memory at this offset
+                    p = mem(a, p.size, disp=cur, endian=endian)
                 elif p.etype==et_ext and p._subrefs.get("mmio_r",None):
                     p = p.stub(self,mode="r")
             P.append(p)
             cur += plen
+        if endian == -1:
+            # parts are in memory order: the last one is the least significant
+            P.reverse()
         return composer(P)
 
     def _Mem_write(self, a, v, endian=1):
